@@ -728,7 +728,7 @@ def main():
             cases.append({"kind": "shape", "N": rr.randint(1, 12), "S": rr.randint(1, 8),
                           "C": rr.choice([8, 9, 10, 12, 16, 18, 20, 24, 27, 30, 36, 48, 60, rr.randint(8, 60)]),
                           "seed": sd, "idx": 100000 + i, "sweep": False})
-    nsim = 800 if thorough else 64
+    nsim = 800 if thorough else 192
     for i in range(nsim):
         cases.append({"kind": "sim", "seed": sd, "idx": i})
     # heavy first so that the round-robin shares are balanced
